@@ -153,5 +153,37 @@ func runC16(o *opts) (*summary, error) {
 		t := time.Unix(ts, tns).In(locs[rng.Intn(len(locs))])
 		w.put(M{"fn": "dt_before", "dt": sec(base), "t": sec(ts), "before": dt.Before(t)}, "dt-before", fmt.Sprintf("t%d/%d/%d", base, ts, tns))
 	}
+	// ... and around the offset changes of the operands' own locations (the hour that occurs twice when clocks are
+	// set back: a comparison that goes through the wall-clock fields instead of the instant gets it wrong there)
+	offs := []int64{-7200, -3601, -3600, -1800, -1, 0, 1, 1800, 3599, 3600, 7200}
+	for _, loc := range locs {
+		tr := transitionsIn(loc)
+		if len(tr) == 0 {
+			continue
+		}
+		k := 12
+		if thorough {
+			k = len(tr)
+		}
+		for i := 0; i < k; i++ {
+			e := tr[len(tr)-1-i%len(tr)]
+			if !thorough && i%2 == 1 {
+				e = tr[rng.Intn(len(tr))]
+			}
+			if e < 0 {
+				continue
+			}
+			for _, a := range offs {
+				for _, b := range offs {
+					if e+a < 0 || e+b < 0 {
+						continue
+					}
+					dt := types.DateTime(time.Unix(e+a, []int64{0, 999999999}[rng.Intn(2)]).In(loc))
+					t := time.Unix(e+b, []int64{0, 1, 999999999}[rng.Intn(3)]).In(locs[rng.Intn(len(locs))])
+					w.put(M{"fn": "dt_before", "dt": sec(e + a), "t": sec(e + b), "before": dt.Before(t)}, "dt-before-transition", fmt.Sprintf("x%s/%d/%d/%d", loc, e, a, b))
+				}
+			}
+		}
+	}
 	return w.close(), nil
 }
